@@ -6,6 +6,7 @@ import (
 	"sort"
 	"strings"
 	"sync"
+	"sync/atomic"
 	"testing"
 	"time"
 
@@ -17,6 +18,7 @@ import (
 	"github.com/spikeekips/mitum/util"
 	"github.com/spikeekips/mitum/util/encoder"
 	"github.com/spikeekips/mitum/util/valuehash"
+	ldbstorage "github.com/syndtr/goleveldb/leveldb/storage"
 	"verifharness/vlib"
 )
 
@@ -56,11 +58,44 @@ func newRig() *rig {
 	return g
 }
 
-func (g *rig) pool() *isaacdatabase.TempPool {
-	p, err := isaacdatabase.NewTempPool(leveldbstorage.NewMemStorage(), g.bt.Encs, g.bt.Enc, 0)
+// slowDisk is goleveldb's in-memory storage with a harness-controlled latency
+// of journal writes (every Put/Batch of the pool appends to the journal before
+// it becomes visible to readers): the suspension point a real disk puts there.
+type slowDisk struct {
+	ldbstorage.Storage
+	delay atomic.Int64 // nanoseconds per journal write
+	waits atomic.Int64
+}
+
+type slowWriter struct {
+	ldbstorage.Writer
+	d *slowDisk
+}
+
+func (d *slowDisk) Create(fd ldbstorage.FileDesc) (ldbstorage.Writer, error) {
+	w, err := d.Storage.Create(fd)
+	if err != nil || fd.Type != ldbstorage.TypeJournal {
+		return w, err
+	}
+	return &slowWriter{Writer: w, d: d}, nil
+}
+
+func (w *slowWriter) Write(p []byte) (int, error) {
+	if n := w.d.delay.Load(); n > 0 {
+		w.d.waits.Add(1)
+		time.Sleep(time.Duration(n))
+	}
+	return w.Writer.Write(p)
+}
+
+func (g *rig) pool() (*isaacdatabase.TempPool, *slowDisk) {
+	d := &slowDisk{Storage: ldbstorage.NewMemStorage()}
+	st, err := leveldbstorage.NewStorage(d, nil)
+	must(err)
+	p, err := isaacdatabase.NewTempPool(st, g.bt.Encs, g.bt.Enc, 0)
 	must(err)
 
-	return p
+	return p, d
 }
 
 // slot: opening a leveldb allocates its whole write buffer, so the pools are
@@ -68,13 +103,18 @@ func (g *rig) pool() *isaacdatabase.TempPool {
 // there before, and one pool serves one history at a time.
 type slot struct {
 	pool  *isaacdatabase.TempPool
+	disk  *slowDisk
 	nextH int64
 }
+
+// journal write latencies used by the concurrent histories
+var diskDelays = []time.Duration{0, 200 * time.Microsecond, time.Millisecond, 3 * time.Millisecond}
 
 func (g *rig) slots(n int) chan *slot {
 	ch := make(chan *slot, n)
 	for i := 0; i < n; i++ {
-		ch <- &slot{pool: g.pool(), nextH: 20}
+		p, d := g.pool()
+		ch <- &slot{pool: p, disk: d, nextH: 20}
 	}
 	return ch
 }
@@ -178,6 +218,20 @@ var registerModel = porcupine.Model{
 	},
 }
 
+// barrier releases its n participants together.
+type barrier struct {
+	ch      chan struct{}
+	n       int32
+	arrived int32
+}
+
+func (b *barrier) wait() {
+	if atomic.AddInt32(&b.arrived, 1) == b.n {
+		close(b.ch)
+	}
+	<-b.ch
+}
+
 type histOp struct {
 	Client int
 	Op     string
@@ -202,8 +256,14 @@ var labels = []string{"A", "B", "C"}
 func runHistory(r *vlib.Run, kind string, hi int, tg target, nclients, nops int, cleaner func(), rngSeed []int) {
 	rng := r.Rand(rngSeed...)
 	// plan
+	// Every history starts with a burst per key: all clients meet at a
+	// barrier and then write their candidate to that key at once (the values
+	// cost about the same to encode, so the writers reach the pool's
+	// check-and-put close together); after the bursts the clients run a few
+	// random reads and writes.
 	type planned struct {
-		in regIn
+		in      regIn
+		barrier *barrier
 	}
 	plans := make([][]planned, nclients)
 	per := nops / nclients
@@ -214,15 +274,21 @@ func runHistory(r *vlib.Run, kind string, hi int, tg target, nclients, nops int,
 	if kind == "proposal" {
 		gets = []string{"get", "getbypoint"}
 	}
+	for k := 0; k < tg.nkeys(); k++ {
+		b := &barrier{n: int32(nclients), ch: make(chan struct{})}
+		for c := range plans {
+			in := regIn{Op: "set", Key: k, Val: labels[rng.Intn(len(labels))]}
+			if rng.Intn(6) == 0 {
+				in = regIn{Op: gets[rng.Intn(len(gets))], Key: k} // a reader inside the burst
+			}
+			plans[c] = append(plans[c], planned{in: in, barrier: b})
+		}
+	}
 	for c := range plans {
 		for i := 0; i < per; i++ {
 			k := rng.Intn(tg.nkeys())
 			var in regIn
-			// the first operation of every client is a write to a contended key
-			if i == 0 || rng.Intn(5) < 2 {
-				if i == 0 {
-					k = rng.Intn(min(2, tg.nkeys()))
-				}
+			if rng.Intn(5) < 2 {
 				in = regIn{Op: "set", Key: k, Val: labels[rng.Intn(len(labels))]}
 			} else {
 				in = regIn{Op: gets[rng.Intn(len(gets))], Key: k}
@@ -241,6 +307,9 @@ func runHistory(r *vlib.Run, kind string, hi int, tg target, nclients, nops int,
 			defer wg.Done()
 			<-start
 			for _, p := range plans[c] {
+				if p.barrier != nil {
+					p.barrier.wait()
+				}
 				var out regOut
 				call := time.Since(t0).Nanoseconds()
 				switch p.in.Op {
@@ -466,14 +535,14 @@ func (p *proposalTarget) get(k int, how string) (bool, string, error) {
 func TestC24(t *testing.T) {
 	r := vlib.Start(t, "C24", vlib.LevelExploration)
 	defer r.Finish()
-	r.SetRule("concurrent part: history = 1..8 clients issuing <= 24 SetBallot/Ballot (resp. SetProposal/Proposal/ProposalByPoint) calls on 2..4 keys of one real TempPool (leveldb MemStorage), 3 different candidate values per key (ballots: different facts and signers for one (stage point, suffrage-confirm flag); proposals: one proposal fact signed by 3 keys), every client starting with a write to a contended key, optionally with a goroutine running the cleanup steps (keys within the protected depth); each history is checked per key with porcupine against a write-once register; distinct = fingerprint of the observed order of call/return events, counted only when calls overlapped. sequential part: case = random entries over a window of heights, cleanup run, survivors and removed entries judged by the depth rule; distinct = (kind, heights relative to newest)")
+	r.SetRule("concurrent part: history = 1..8 clients issuing SetBallot/Ballot (resp. SetProposal/Proposal/ProposalByPoint) calls on 2..3 keys of one real TempPool (leveldb on goleveldb MemStorage whose journal writes take 0 / 0.2 / 1 / 3 ms, the latency a disk puts between a write call and its visibility), 3 different candidate values per key (ballots: different facts and signers for one (stage point, suffrage-confirm flag); proposals: one proposal fact signed by 3 keys), all clients writing to each key in turn at once from a barrier (one burst per key) and then <= 12 random reads and writes, optionally with a goroutine running the cleanup steps (keys within the protected depth); each history is checked per key with porcupine against a write-once register; distinct = fingerprint of the observed order of call/return events, counted only when calls overlapped. sequential part: case = random entries over a window of heights, cleanup run, survivors and removed entries judged by the depth rule; distinct = (kind, heights relative to newest)")
 	r.Assume("two proposals with different facts for one (point, proposer, previous block) are not generated: the statement fixes the first proposal per proposal fact and the lookup by point to 'that same proposal', which presumes one fact per (point, proposer, previous block)")
 	r.Assume("cleanup is demanded only what the statement says: an entry it removed lies at least <depth> heights below the newest height stored in that pool; entries above that line are still readable and unchanged; how much of the older part goes is not judged")
 
 	g := newRig()
 	const workers = 8
 	slots := g.slots(workers)
-	seqpool := g.pool()
+	seqpool, _ := g.pool()
 	pdepth, bdepth := seqpool.VerifCleanDepths()
 	r.Set("configured_depth_proposals", pdepth)
 	r.Set("configured_depth_ballots", bdepth)
@@ -481,7 +550,7 @@ func TestC24(t *testing.T) {
 	// NOTE on sizes: under -race the JSON encoder of the repository (sonic)
 	// encodes every value twice at every nesting level, one SetBallot of a new
 	// key costs 0.2-0.9 s of CPU; histories are therefore few and short.
-	nh := r.N(16, 200)
+	nh := r.N(10, 120)
 	r.WithWatchdog(time.Duration(r.N(20, 120))*time.Minute, "C24 workload", func() {
 		t0 := time.Now()
 		vlib.Parallel(nh, workers, func(hi int) {
@@ -502,6 +571,7 @@ func TestC24(t *testing.T) {
 		nc := r.N(8, 100)
 		vlib.Parallel(nc, workers, func(ci int) {
 			sl := <-slots
+			sl.disk.delay.Store(0)
 			must(sl.pool.Clean())
 			cleanupCase(r, g, sl.pool, ci, bdepth, pdepth)
 			must(sl.pool.Clean())
@@ -520,9 +590,15 @@ func TestC24(t *testing.T) {
 func ballotHistory(r *vlib.Run, g *rig, sl *slot, hi int) {
 	rng := r.Rand(24, 1, hi)
 	pool := sl.pool
+	delay := diskDelays[rng.Intn(len(diskDelays))]
+	sl.disk.delay.Store(0)
+	defer func() {
+		r.Count("slow_journal_writes", int(sl.disk.waits.Swap(0)))
+		r.Count(fmt.Sprintf("histories_with_journal_latency_%dus", delay.Microseconds()), 1)
+	}()
 	h0 := sl.nextH
 	sl.nextH += 10
-	nk := 2 + rng.Intn(3)
+	nk := 2 + rng.Intn(2)
 	tg := &ballotTarget{pool: pool}
 	used := map[string]bool{}
 	for len(tg.keys) < nk {
@@ -565,19 +641,27 @@ func ballotHistory(r *vlib.Run, g *rig, sl *slot, hi int) {
 		}
 	}
 
-	nclients := 2 + rng.Intn(7)
+	nclients := 3 + rng.Intn(6)
 	if hi%10 == 9 {
 		nclients = 1
 	}
-	runHistory(r, "ballot", hi, tg, nclients, 24, cleaner, []int{24, 2, hi})
+	sl.disk.delay.Store(int64(delay))
+	runHistory(r, "ballot", hi, tg, nclients, 12, cleaner, []int{24, 2, hi})
+	sl.disk.delay.Store(0)
 }
 
 func proposalHistory(r *vlib.Run, g *rig, sl *slot, hi int) {
 	rng := r.Rand(24, 3, hi)
 	pool := sl.pool
+	delay := diskDelays[rng.Intn(len(diskDelays))]
+	sl.disk.delay.Store(0)
+	defer func() {
+		r.Count("slow_journal_writes", int(sl.disk.waits.Swap(0)))
+		r.Count(fmt.Sprintf("histories_with_journal_latency_%dus", delay.Microseconds()), 1)
+	}()
 	h0 := sl.nextH
 	sl.nextH += 10
-	nk := 2 + rng.Intn(3)
+	nk := 2 + rng.Intn(2)
 	tg := &proposalTarget{pool: pool}
 	used := map[string]bool{}
 	for len(tg.facts) < nk {
@@ -627,11 +711,13 @@ func proposalHistory(r *vlib.Run, g *rig, sl *slot, hi int) {
 		}
 	}
 
-	nclients := 2 + rng.Intn(7)
+	nclients := 3 + rng.Intn(6)
 	if hi%10 == 9 {
 		nclients = 1
 	}
-	runHistory(r, "proposal", hi, tg, nclients, 24, cleaner, []int{24, 4, hi})
+	sl.disk.delay.Store(int64(delay))
+	runHistory(r, "proposal", hi, tg, nclients, 12, cleaner, []int{24, 4, hi})
+	sl.disk.delay.Store(0)
 }
 
 // validPoint: the genesis height has round 0 only (base.Point.IsValid).
